@@ -88,7 +88,9 @@ deep_search = run
 
 
 def replay(ctx, data):
-    v = data.get("input") or (data.get("details") or [{}])[-1].get("input")
+    v = sc.replay_input(data)
+    if v is None:
+        return 1
     res = impl.run_cases([dict(op="solve", game=v["game"], prune=v["prune"])])[0]
     print("implementation:", res)
     return 0 if "ok" in res else 1
